@@ -311,6 +311,9 @@ func (r *c19run) check(end, msg string) error {
 			}
 			continue
 		}
+		if d.Body == "fail" && s.Err() == nil {
+			return fmt.Errorf("SAMPLE: the body of answer %d broke off while it was read, but its sample carries no failure (proto %d)", i+1, s.ProtoCode())
+		}
 		if s.ProtoCode() != d.Status && s.Err() == nil {
 			return fmt.Errorf("SAMPLE: request %d got status %d, its sample carries proto %d and no failure", i+1, d.Status, s.ProtoCode())
 		}
